@@ -227,10 +227,10 @@ Lemma stage_op_print b st a2 b' st' op cpv :
 Proof.
   unfold stage_op. destruct a2 as [|d t2]; [discriminate|].
   destruct (N.eqb_spec d c_lt) as [->|Hlt]; cbn [orb].
-  { destruct t2 as [|e t3]; [discriminate|].
+  { destruct t2 as [|e t3]; [intros H; injection H as <- <- <- <-; repeat split|].
     destruct (N.eqb_spec e c_eq) as [->|He]; intros H; injection H as <- <- <- <-; repeat split. }
   destruct (N.eqb_spec d c_gt) as [->|Hgt]; cbn [orb].
-  { destruct t2 as [|e t3]; [discriminate|].
+  { destruct t2 as [|e t3]; [intros H; injection H as <- <- <- <-; repeat split|].
     destruct (N.eqb_spec e c_eq) as [->|He]; intros H; injection H as <- <- <- <-; repeat split. }
   destruct (N.eqb_spec d c_eq) as [->|Heq].
   { destruct (lastc (c_eq :: t2)) as [l|] eqn:El.
@@ -396,7 +396,6 @@ Proof.
   assert (Hmain : forall lft p,
      lft ++ p_slot (sp_slot p) (sp_sub p) (sp_op p) ++ p_repo (sp_repo p) = body ->
      match stage_prefix g lft with
-     | R3Index => IndexErr
      | R3Malformed => Malformed
      | R3 blocks strong op cpvstr =>
          if is_some (sp_slot p) && negb (g_slot_deps g) then Malformed
@@ -419,7 +418,7 @@ Proof.
            end
      end = Ok a -> print_atom a = body ++ p_use use).
   { intros lft p Hb.
-    destruct (stage_prefix g lft) as [b st op cpv| |] eqn:Ep; try discriminate.
+    destruct (stage_prefix g lft) as [b st op cpv|] eqn:Ep; try discriminate.
     destruct (is_some (sp_slot p) && negb (g_slot_deps g)); [discriminate|].
     destruct (is_some use && negb (g_use_deps g)); [discriminate|].
     destruct (is_some e && is_some (sp_repo p)); [discriminate|].
@@ -684,7 +683,7 @@ Proof.
     - destruct (stage_slot g r) as [p'|] eqn:E2; [|discriminate]. injection Esp as <- <-.
       exact (stage_slot_sub _ _ _ E2).
     - injection Esp as <- <-. cbn. discriminate. }
-  destruct (stage_prefix g lft) as [b st op cpv| |] eqn:Ep; try discriminate.
+  destruct (stage_prefix g lft) as [b st op cpv|] eqn:Ep; try discriminate.
   destruct (is_some (sp_slot p) && negb (g_slot_deps g)) eqn:E1; [discriminate|].
   destruct (is_some use && negb (g_use_deps g)) eqn:E2; [discriminate|].
   destruct (is_some e && is_some (sp_repo p)) eqn:E3; [discriminate|].
@@ -929,17 +928,35 @@ Definition accept_iff_grammar_statement : Prop :=
 Definition reject_is_malformed_statement : Prop :=
   forall e s, features_of e <> None -> is_ok (parse_atom e false s) = false -> parse_atom e false s = Malformed.
 
-(* Both are FALSE of the faithful model (and of the code: the witnesses are replayed by the harness). *)
+(* The first is FALSE of the faithful model (and of the code: the witnesses are replayed by the
+   harness); the second holds since the repair 3aa9a5c. *)
 Lemma accept_iff_grammar_refuted_proof : ~ accept_iff_grammar_statement.
 Proof.
   intros H. specialize (H None [97;47;98;10]). vm_compute in H.
   assert (E : true = false) by (apply H; discriminate). discriminate.
 Qed.
 
-Lemma reject_is_malformed_refuted_proof : ~ reject_is_malformed_statement.
+Lemma features_gates e : features_of e <> None -> gates_of e <> None.
 Proof.
-  intros H. specialize (H None [58;48]). vm_compute in H.
-  assert (E : IndexErr = Malformed) by (apply H; [discriminate | reflexivity]). discriminate.
+  destruct e as [k|]; cbn [features_of gates_of]; [|intros _; vm_compute; discriminate].
+  unfold pms_newest_eapi. destruct (N.leb_spec k 9) as [Hle|]; [|congruence]. intros _.
+  assert (Hin : In k [0;1;2;3;4;5;6;7;8;9]) by (cbn; lia).
+  cbn in Hin. repeat (destruct Hin as [<-|Hin]; [vm_compute; discriminate|]). destruct Hin.
+Qed.
+
+(* since /repo 3aa9a5c: every rejection is a MalformedAtom *)
+Lemma reject_is_malformed_proof : reject_is_malformed_statement.
+Proof.
+  intros e s Hf Hno. pose proof (features_gates _ Hf) as Hg.
+  unfold parse_atom in *. destruct s as [|x t]; [reflexivity|].
+  destruct (gates_of e) as [g|]; [|congruence].
+  destruct (stage_use g (x :: t)) as [st|]; [|reflexivity].
+  destruct (parse_rest e false g st) as [a| |] eqn:E; [discriminate | reflexivity | exfalso].
+  unfold parse_rest in E. destruct st as [[body use] colon].
+  destruct (match colon with Some (lft, rgt) => _ | None => _ end) as [[lft p]|]; [|discriminate].
+  destruct (stage_prefix g lft); [|discriminate].
+  destruct (_ && _); [discriminate|]. destruct (_ && _); [discriminate|]. destruct (_ && _); [discriminate|].
+  destruct (parse_cpv _ _); [|discriminate]. destruct (_ && _); discriminate.
 Qed.
 
 (* one witness per known class of disagreement (harness classifiers of the same names) *)
